@@ -14,7 +14,7 @@ import (
 func init() {
 	register(&propSpec{ID: "C15", Run: checkC15,
 		Explanation: "Both Node updates send the object freshly fetched with Get in the same call; between Get and Update the only stores rooted at that object target Spec.Taints (the slice header or one of its elements); the add path appends exactly one taint literal {Key: atlassian.com/escalator, Value: decimal Unix seconds of now, Effect: parameter if non-empty else NoSchedule} and is reachable only when a full search of the fetched object's taints found no such key; the delete path removes exactly one element at an index whose Key matched (swap-with-last + truncate-by-one, or splice) and returns right after its single Update; the reader parses base-10 int64 seconds into time.Unix(x, 0); Update is called from nowhere else; the effect passed at the taint site is the group's taint_effect.",
-		RuleText:    "R1 fresh object, R2 store census, R3 added taint literal, R4 no re-stamp, R5 delete idiom, R6 writer/reader agreement, R7 who-may-update",
+		RuleText:    "R1 fresh object, R2 store census, R3 added taint literal, R4 no re-stamp, R5 delete idiom, R6 writer/reader agreement, R7 who-may-update, R8 a nil error is returned only after the Get (and, once issued, the Update) of the same call succeeded",
 		Assumptions: []string{"API-server semantics of Update (optimistic concurrency, admission mutation) and other actors re-tainting are not decided"}})
 	register(&propSpec{ID: "C14", Run: checkC14,
 		Explanation: "Each filter's boolean function, read off its return sites: the labelled-group pod filter returns true exactly under ¬DaemonSet ∧ (selector[key] present ∧ = value), or inside the full nested traversal of the nil-safely unwrapped required node-affinity terms under Key = key ∧ Operator = In ∧ some value = value — with no other condition and no early false; the default filter ⇔ ¬DaemonSet ∧ ¬static ∧ no selector ∧ (no affinity ∨ all three affinity kinds nil); the node filter ⇔ labels[key] present ∧ = value; PodIsDaemonSet / PodIsStatic are the documented predicates; the filtered listers append exactly the elements the filter accepts.",
@@ -208,6 +208,8 @@ func checkC15(ck *Check) {
 		ck.cond(eff != nil && want != nil && eff.Key() == want.Key(), "C15.R3", ck.P.siteKey(s.Call)+"/effect", ck.P.instrPos(s.Call), funcID(s.Fn), "the taint is written with the group's configured taint_effect", fmt.Sprint(eff), "")
 	}
 	ck.timeRoundTrip("C15.R6")
+	ck.writeConfirmed("C15.R8", a.AddTaint)
+	ck.writeConfirmed("C15.R8", a.DelTaint)
 }
 
 // addedTaint (C15.R3)
@@ -444,16 +446,22 @@ func (ck *Check) timeRoundTrip(rule string) {
 // C14
 
 func checkC14(ck *Check) {
+	ck.filterPredicates(func(n int) string { return fmt.Sprintf("C14.R%d", n) })
+}
+
+// filterPredicates decides the boolean function of each pod / node filter and of the filtered
+// listers; rule(n) names the rule the n-th group of obligations is reported under.
+func (ck *Check) filterPredicates(rule func(n int) string) {
 	sp := ck.P.SSAPkg[pkgController]
 	kp := ck.P.SSAPkg[pkgK8s]
 	if sp == nil || kp == nil {
-		ck.lost("C14.R1", "packages", "controller / k8s not loaded")
+		ck.lost(rule(1), "packages", "controller / k8s not loaded")
 		return
 	}
 	closureOf := func(name string) *ssa.Function {
 		f := sp.Func(name)
 		if f == nil || len(f.AnonFuncs) != 1 {
-			ck.lost("C14.R1", name, "constructor with exactly one closure not found")
+			ck.lost(rule(1), name, "constructor with exactly one closure not found")
 			return nil
 		}
 		return f.AnonFuncs[0]
@@ -461,12 +469,12 @@ func checkC14(ck *Check) {
 	isDS := kp.Func("PodIsDaemonSet")
 	isStatic := kp.Func("PodIsStatic")
 	if isDS == nil || isStatic == nil {
-		ck.lost("C14.R4", "PodIsDaemonSet/PodIsStatic", "not found")
+		ck.lost(rule(4), "PodIsDaemonSet/PodIsStatic", "not found")
 		return
 	}
 	// R1
 	if fn := closureOf("NewPodAffinityFilterFunc"); fn != nil {
-		ck.affinityFilter("C14.R1", fn, isDS, sp.Func("unwrapNodeSelectorTerms"))
+		ck.affinityFilter(rule(1), fn, isDS, sp.Func("unwrapNodeSelectorTerms"))
 	}
 	// R2
 	if fn := closureOf("NewPodDefaultFilterFunc"); fn != nil {
@@ -485,9 +493,9 @@ func checkC14(ck *Check) {
 			Or(isNil(aff), And(isNil(ck.nodeField(aff, "NodeAffinity")), isNil(ck.nodeField(aff, "PodAffinity")), isNil(ck.nodeField(aff, "PodAntiAffinity")))))
 		okv, why, err := Equivalent(got, want)
 		if err != nil {
-			ck.undecided("C14.R2", "default-filter", "", funcID(fn), want.String(), err.Error())
+			ck.undecided(rule(2), "default-filter", "", funcID(fn), want.String(), err.Error())
 		} else {
-			ck.cond(okv, "C14.R2", "default-filter", ck.P.position(fn.Pos()), funcID(fn), "default group: counts ⇔ ¬DaemonSet ∧ ¬static ∧ no nodeSelector ∧ (Affinity = nil ∨ node/pod/anti affinity all nil)", got.String(), why)
+			ck.cond(okv, rule(2), "default-filter", ck.P.position(fn.Pos()), funcID(fn), "default group: counts ⇔ ¬DaemonSet ∧ ¬static ∧ no nodeSelector ∧ (Affinity = nil ∨ node/pod/anti affinity all nil)", got.String(), why)
 		}
 	}
 	// R3
@@ -529,10 +537,10 @@ func checkC14(ck *Check) {
 				why = "no comma-ok lookup of the label key compared with the label value"
 			}
 		}
-		ck.cond(okv, "C14.R3", "node-filter", ck.P.position(fn.Pos()), funcID(fn), "node belongs ⇔ labels[key] present ∧ = value", got.String(), why)
+		ck.cond(okv, rule(3), "node-filter", ck.P.position(fn.Pos()), funcID(fn), "node belongs ⇔ labels[key] present ∧ = value", got.String(), why)
 	}
 	// R4
-	ck.existsPredicate("C14.R4", isDS, "OwnerReferences", "Kind", `"DaemonSet"`)
+	ck.existsPredicate(rule(4), isDS, "OwnerReferences", "Kind", `"DaemonSet"`)
 	{
 		ctx := ck.P.NewCtx(isStatic)
 		pod := paramTerm(isStatic.Params[0])
@@ -541,17 +549,17 @@ func checkC14(ck *Check) {
 		present := Atom(&Term{Kind: "extract", Name: "1", Args: []*Term{lk}})
 		equal := cmpFormula(token.EQL, &Term{Kind: "extract", Name: "0", Args: []*Term{lk}}, &Term{Kind: "const", Name: `"file"`})
 		okv, why, _ := Equivalent(got, And(present, equal))
-		ck.cond(okv, "C14.R4", "PodIsStatic", ck.P.position(isStatic.Pos()), funcID(isStatic), `static ⇔ annotations["kubernetes.io/config.source"] = "file"`, got.String(), why)
+		ck.cond(okv, rule(4), "PodIsStatic", ck.P.position(isStatic.Pos()), funcID(isStatic), `static ⇔ annotations["kubernetes.io/config.source"] = "file"`, got.String(), why)
 	}
 	// R5 listers
 	for _, name := range []string{"FilteredPodsLister", "FilteredNodesLister"} {
 		tn := ck.A.named(pkgK8s, name)
 		fn := ck.A.method(tn, "List")
 		if fn == nil {
-			ck.lost("C14.R5", name+".List", "not found")
+			ck.lost(rule(5), name+".List", "not found")
 			continue
 		}
-		ck.filteredLister("C14.R5", fn)
+		ck.filteredLister(rule(5), fn)
 	}
 }
 
@@ -944,6 +952,7 @@ func (ck *Check) nodeListImmutability(rule string) {
 		return ok && (strings.HasSuffix(typeName(pt.Elem()), "v1.Node") || strings.HasSuffix(typeName(pt.Elem()), "v1.Pod"))
 	}
 	// sharedRoot: the slice value derives (through re-slicing / φ) from a parameter, a scaleOpts field, a lister result or the classifier
+	n, bad := 0, 0
 	var sharedRoot func(v ssa.Value, seen map[ssa.Value]bool) string
 	sharedRoot = func(v ssa.Value, seen map[ssa.Value]bool) string {
 		if seen[v] {
@@ -978,7 +987,113 @@ func (ck *Check) nodeListImmutability(rule string) {
 		}
 		return ""
 	}
-	n, bad := 0, 0
+	// object immutability: a Node / Pod object that came from a lister (a parameter, an element of a
+	// node list, a result of a repo helper) is the informer cache's copy, shared by every later
+	// scan: no field of it is written. Objects returned by the typed client (Get / Update) and
+	// DeepCopy results are the caller's own.
+	isObjPtr := func(t types.Type) bool {
+		pt, ok := t.(*types.Pointer)
+		return ok && (strings.HasSuffix(typeName(pt.Elem()), "v1.Node") || strings.HasSuffix(typeName(pt.Elem()), "v1.Pod"))
+	}
+	var sharedObj func(v ssa.Value, seen map[ssa.Value]bool) string
+	sharedObj = func(v ssa.Value, seen map[ssa.Value]bool) string {
+		if seen[v] {
+			return ""
+		}
+		seen[v] = true
+		switch x := v.(type) {
+		case *ssa.Parameter:
+			return "parameter " + x.Name()
+		case *ssa.FreeVar:
+			return "captured " + x.Name()
+		case *ssa.Phi:
+			for _, e := range x.Edges {
+				if r := sharedObj(e, seen); r != "" {
+					return r
+				}
+			}
+		case *ssa.UnOp:
+			if x.Op != token.MUL {
+				return ""
+			}
+			switch ad := x.X.(type) {
+			case *ssa.IndexAddr:
+				return "element of a listed slice"
+			case *ssa.FieldAddr:
+				return "field " + fieldOfAddr(ad).Name() + " of a shared structure"
+			case *ssa.Alloc:
+				// a spilled local: shared if any store into it is
+				for _, ref := range *ad.Referrers() {
+					if st, ok := ref.(*ssa.Store); ok && st.Addr == ad {
+						if r := sharedObj(st.Val, seen); r != "" {
+							return r
+						}
+					}
+				}
+			}
+		case *ssa.Extract:
+			if c, ok := x.Tuple.(*ssa.Call); ok {
+				if f := c.Common().StaticCallee(); f != nil && ck.P.inRepo(f) {
+					return "result of " + calleeName(c)
+				}
+			}
+		case *ssa.Call:
+			if f := x.Common().StaticCallee(); f != nil && ck.P.inRepo(f) {
+				return "result of " + calleeName(x)
+			}
+		case *ssa.Lookup, *ssa.Index:
+			return "element of a shared collection"
+		}
+		return ""
+	}
+	objStores := 0
+	for _, fn := range fns {
+		ord := 0
+		for _, b := range fn.Blocks {
+			for _, in := range b.Instrs {
+				st, ok := in.(*ssa.Store)
+				if !ok {
+					continue
+				}
+				// walk the address down to the object pointer it is rooted at
+				v := st.Addr
+				var root ssa.Value
+				for steps := 0; steps < 16 && root == nil; steps++ {
+					if isObjPtr(v.Type()) {
+						if _, isField := v.(*ssa.FieldAddr); !isField {
+							root = v
+							break
+						}
+					}
+					switch x := v.(type) {
+					case *ssa.FieldAddr:
+						v = x.X
+					case *ssa.IndexAddr:
+						v = x.X
+					case *ssa.UnOp:
+						if x.Op == token.MUL {
+							v = x.X
+						} else {
+							steps = 99
+						}
+					default:
+						steps = 99
+					}
+				}
+				if root == nil || root == st.Addr {
+					continue
+				}
+				objStores++
+				if r := sharedObj(root, map[ssa.Value]bool{}); r != "" {
+					bad++
+					ck.fail(rule, fmt.Sprintf("%s/object-store#%d", funcID(fn), ord), ck.P.instrPos(st), funcID(fn), "Node / Pod objects received from the listers are never written (only objects returned by Get / Update are)", "store into a field of "+r,
+						"the informer cache's copy is modified: every later scan classifies and times the node from a state the cluster never had")
+				}
+				ord++
+			}
+		}
+	}
+	ck.Stats[rule+" object field stores examined"] = objStores
 	for _, fn := range fns {
 		for _, b := range fn.Blocks {
 			for _, in := range b.Instrs {
@@ -1010,6 +1125,118 @@ func (ck *Check) nodeListImmutability(rule string) {
 	}
 	ck.Stats[rule+" list writes examined"] = n
 	if bad == 0 {
-		ck.ok(rule, "scan/list-immutability", "", funcID(a.Scan), "no function reachable from the scan body writes into a node / pod list it received", fmt.Sprintf("%d element stores / appends examined in %d functions", n, len(fns)))
+		ck.ok(rule, "scan/list-immutability", "", funcID(a.Scan), "no function reachable from the scan body writes into a node / pod list, or into a Node / Pod object, it received", fmt.Sprintf("%d element stores / appends and %d object field stores examined in %d functions", n, objStores, len(fns)))
+	}
+}
+
+// writeConfirmed: fn (AddToBeRemovedTaint / DeleteToBeRemovedTaint) reports success — a nil error —
+// only when the API server answered: on every return whose error result can be nil, the Get of this
+// call succeeded, and if the Update was issued it succeeded too. The callers count a nil error as
+// "one node tainted / untainted" (bounded accumulators of C03.R2 / C07.R3), so a success reported
+// for a node that could not be read or written makes the loop stop short of N and the cloud
+// request shrink by a node that was never reused.
+func (ck *Check) writeConfirmed(rule string, fn *ssa.Function) {
+	if fn == nil {
+		ck.lost(rule, "taint writer", "function not resolved")
+		return
+	}
+	ctx := ck.P.NewCtx(fn)
+	var get, upd *ssa.Call
+	for _, r := range ck.A.R {
+		if r.Fn == fn && r.Method == "Get" {
+			get, _ = r.Call.(*ssa.Call)
+		}
+	}
+	for _, w := range ck.A.W {
+		if w.Fn == fn && w.Class == "W-K8S-UPD" {
+			upd, _ = w.Call.(*ssa.Call)
+		}
+	}
+	if get == nil || upd == nil {
+		ck.fail(rule, funcID(fn)+"/confirmed", ck.P.position(fn.Pos()), funcID(fn), "the taint writer reads the node with Get and writes it with Update", fmt.Sprintf("get=%v update=%v", get != nil, upd != nil), "")
+		return
+	}
+	nilT := &Term{Kind: "const", Name: "nil"}
+	errAtom := func(call *ssa.Call) *Formula {
+		ct := ctx.Term(call)
+		f := cmpFormula(token.EQL, &Term{Kind: "extract", Name: "1", Args: []*Term{ct}}, nilT)
+		for _, b := range fn.Blocks {
+			for _, at := range ctx.BlockPC(b).Atoms() {
+				if at.Kind == "cmp" && at.Name == "==" && hasConstStr(at, "nil") {
+					for _, x := range at.Args {
+						if isExtractOf(x, 1, func(t *Term) bool { return t.Key() == ct.Key() }) {
+							f = Atom(at)
+						}
+					}
+				}
+			}
+		}
+		return f
+	}
+	getOK, updOK := errAtom(get), errAtom(upd)
+	// blocks reachable from the Update
+	after := map[*ssa.BasicBlock]bool{}
+	var walk func(b *ssa.BasicBlock)
+	walk = func(b *ssa.BasicBlock) {
+		for _, s := range b.Succs {
+			if !after[s] {
+				after[s] = true
+				walk(s)
+			}
+		}
+	}
+	walk(upd.Block())
+	n := 0
+	for _, b := range fn.Blocks {
+		r, ok := b.Instrs[len(b.Instrs)-1].(*ssa.Return)
+		if !ok || len(r.Results) != 2 {
+			continue
+		}
+		pc := ctx.PC(r)
+		if k, isConst := r.Results[1].(*ssa.Const); !isConst || !k.IsNil() {
+			if errorConstructor(r.Results[1]) {
+				continue // a freshly built error: a failure return
+			}
+			et := ctx.Term(r.Results[1])
+			pc = And(pc, cmpFormula(token.EQL, et, nilT))
+		}
+		if sat, _ := Satisfiable(pc); !sat {
+			continue
+		}
+		key := fmt.Sprintf("%s/success-return#%d", funcID(fn), n)
+		n++
+		ck.entails(rule, key+"/read", r, pc, getOK, "a nil error is returned only if the Get of this call succeeded")
+		if after[b] || b == upd.Block() {
+			ck.entails(rule, key+"/written", r, pc, updOK, "after the Update, a nil error is returned only if the Update succeeded")
+		}
+	}
+	ck.floor(rule, "success returns of "+fn.Name(), n, 2)
+}
+
+// errorConstructor: v is the result of fmt.Errorf / errors.New / pkg/errors constructors (possibly
+// converted to the error interface) — never nil.
+func errorConstructor(v ssa.Value) bool {
+	for {
+		switch x := v.(type) {
+		case *ssa.MakeInterface:
+			v = x.X
+			continue
+		case *ssa.ChangeInterface:
+			v = x.X
+			continue
+		case *ssa.Call:
+			f := x.Call.StaticCallee()
+			if f == nil || f.Pkg == nil {
+				return false
+			}
+			switch f.Pkg.Pkg.Path() + "." + f.Name() {
+			case "fmt.Errorf", "errors.New", "github.com/pkg/errors.New", "github.com/pkg/errors.Errorf", "github.com/pkg/errors.Wrap", "github.com/pkg/errors.Wrapf":
+				return f.Name() != "Wrap" && f.Name() != "Wrapf" // Wrap(nil) is nil
+			}
+			return false
+		case *ssa.Alloc:
+			return true // &T{} converted to error
+		}
+		return false
 	}
 }
